@@ -449,6 +449,58 @@ func checkC13(c *Ctx) {
 		}
 	}
 
+	// hook closures must report that they invoked a hook: callMethod dispatches per element only when
+	// the whole-value attempt returned false, so an invocation that is not reported runs the hook twice
+	closures := map[*FuncSrc]bool{}
+	for _, iv := range invs {
+		if iv.f.Lit != nil {
+			closures[iv.f] = true
+		}
+	}
+	for f := range closures {
+		info := f.Pkg.TypesInfo
+		var resObj types.Object
+		if f.Type.Results != nil && len(f.Type.Results.List) == 1 && len(f.Type.Results.List[0].Names) == 1 {
+			resObj = info.Defs[f.Type.Results.List[0].Names[0]]
+		}
+		paths, ok := p.EnumPaths(f, nil, 5000)
+		bad := 0
+		var where token.Pos = f.Body.Pos()
+		for _, pr := range paths {
+			invoked, reported := false, false
+			for _, n := range pr.Nodes {
+				ast.Inspect(n, func(x ast.Node) bool {
+					switch x := x.(type) {
+					case *ast.CallExpr:
+						if fn, _ := typeutil.Callee(info, x).(*types.Func); fn != nil && hookSet[fn] != "" {
+							invoked = true
+						}
+					case *ast.AssignStmt:
+						if len(x.Lhs) == 1 && len(x.Rhs) == 1 && x.Tok == token.ASSIGN {
+							if id, ok := x.Lhs[0].(*ast.Ident); ok && resObj != nil && info.Uses[id] == resObj {
+								if b, isC := constBool(info, x.Rhs[0]); isC && b {
+									reported = true
+								}
+							}
+						}
+					case *ast.ReturnStmt:
+						if len(x.Results) == 1 {
+							if b, isC := constBool(info, x.Results[0]); isC && b {
+								reported = true
+							}
+						}
+					}
+					return true
+				})
+			}
+			if invoked && !reported {
+				bad++
+				where = pr.Exit
+			}
+		}
+		rd.Check(ok && bad == 0, f.Name(), "closure reports the hook invocation", where, "returns true on every path that invoked a hook", "a path through the hook closure invokes a hook but returns false: callMethod then dispatches per element as well and the hook fires twice for the same record")
+	}
+
 	// ---- C13.skip ----
 	rk := c.Rule("C13.skip", "column-update finishers set SkipHooks before executing", 2)
 	stmtT := p.Named(pkgGorm, "Statement")
